@@ -45,8 +45,9 @@
 //!   MemoryStorage in which A, B, C are deployed. Controls: `ret 1` (accepted) and
 //!   `bsiz` of a stored blob (accepted, BlobData read visible in the log = monitor live).
 //!   Plus SPACE B' (storage layer, direct): every contract-table operation that
-//!   `PredicateStorage<&RecP>` offers (36 calls over StorageInspect/Mutate/Size/Read/
+//!   `PredicateStorage<&RecP>` offers (calls over StorageInspect/Mutate/Size/Read/
 //!   Write, ContractsAssetsStorage and InterpreterStorage's contract methods).
+//!   (43 calls; the count is in the evidence.)
 //!
 //! ORACLE (from the statement; inputs := contract ids of the transaction's
 //!   Input::Contract entries, computed from the transaction):
@@ -1341,14 +1342,16 @@ fn run_program(env: &Env, ins: &[Instruction], want_trace: bool) -> ProgOut {
         if !contract_log.is_empty() || target.is_some() {
             out.nontrivial = true;
         }
-        if want_trace {
-            out.trace.push(json!({
-                "op": opname,
-                "depth": depth,
-                "target": target.map(|t| short(&t)),
-                "accesses": log.iter().map(access_json).collect::<Vec<_>>(),
-                "result": s.label(),
-            }));
+        if want_trace && out.steps > env.world.body_start() as u64 {
+            let acc: Vec<String> = log
+                .iter()
+                .map(|a| access_json(a).as_str().unwrap_or("").to_string())
+                .collect();
+            out.trace.push(json!(format!(
+                "depth {depth}: {opname}{} -> {} {acc:?}",
+                target.map(|t| format!(" [{}]", short(&t))).unwrap_or_default(),
+                s.label()
+            )));
         }
         sig.push((opname, depth, contract_log, s.label()));
         last = s;
@@ -1912,15 +1915,25 @@ fn explore_programs(ctx: &Ctx) {
         }
         ctx.outcomes_merge(&acc_total.hist);
         // samples: a short program, and two spread over the longer ones
+        let nested_f5: (u64, Vec<u64>) = (
+            0,
+            vec![alpha
+                .iter()
+                .position(|l| l.name == "call A[call B[call C]]")
+                .expect("letter") as u64],
+        );
         let picks: Vec<&(u64, Vec<u64>)> = {
             let s = &acc_total.samples;
             let mut p = vec![];
-            if !s.is_empty() {
-                p.push(&s[0]);
-                if env.name == "rich" && s.len() > 2 {
+            if env.name == "rich" {
+                p.push(&nested_f5);
+                if s.len() > 2 {
+                    p.push(&s[0]);
                     p.push(&s[s.len() / 2]);
-                    p.push(&s[s.len() - 1]);
                 }
+            } else if !s.is_empty() {
+                p.push(&s[s.len() / 3]);
+                p.push(&s[s.len() - 1]);
             }
             p
         };
@@ -1933,7 +1946,7 @@ fn explore_programs(ctx: &Ctx) {
             ctx.sample(json!({
                 "kind": "program", "world": env.name,
                 "letters": progkit::program_names(&alpha, seq),
-                "steps_after_prelude_and_prelude": out.trace,
+                "steps_after_prelude": out.trace,
                 "end": out.end,
             }));
         }
